@@ -367,7 +367,7 @@ func (v *VecDense) AddScaledVec(a Vector, alpha float64, b Vector) {
 	aU, _ := untransposeExtract(a)
 	if rv, ok := aU.(*VecDense); ok {
 		amat = rv.mat
-		if v != a {
+		if v != aU {
 			v.checkOverlap(amat)
 		}
 	} else {
@@ -376,7 +376,7 @@ func (v *VecDense) AddScaledVec(a Vector, alpha float64, b Vector) {
 	bU, _ := untransposeExtract(b)
 	if rv, ok := bU.(*VecDense); ok {
 		bmat = rv.mat
-		if v != b {
+		if v != bU {
 			v.checkOverlap(bmat)
 		}
 	} else {
@@ -436,10 +436,10 @@ func (v *VecDense) AddVec(a, b Vector) {
 			amat := arv.mat
 			bmat := brv.mat
 
-			if v != a {
+			if v != aU {
 				v.checkOverlap(amat)
 			}
-			if v != b {
+			if v != bU {
 				v.checkOverlap(bmat)
 			}
 
@@ -479,10 +479,10 @@ func (v *VecDense) SubVec(a, b Vector) {
 			amat := arv.mat
 			bmat := brv.mat
 
-			if v != a {
+			if v != aU {
 				v.checkOverlap(amat)
 			}
-			if v != b {
+			if v != bU {
 				v.checkOverlap(bmat)
 			}
 
@@ -523,10 +523,10 @@ func (v *VecDense) MulElemVec(a, b Vector) {
 			amat := arv.mat
 			bmat := brv.mat
 
-			if v != a {
+			if v != aU {
 				v.checkOverlap(amat)
 			}
-			if v != b {
+			if v != bU {
 				v.checkOverlap(bmat)
 			}
 
@@ -572,10 +572,10 @@ func (v *VecDense) DivElemVec(a, b Vector) {
 			amat := arv.mat
 			bmat := brv.mat
 
-			if v != a {
+			if v != aU {
 				v.checkOverlap(amat)
 			}
-			if v != b {
+			if v != bU {
 				v.checkOverlap(bmat)
 			}
 
